@@ -29,6 +29,7 @@ type Timer struct {
 	C     *vchan.Chan[Time]
 	armed bool
 	D     Duration
+	f     func() // AfterFunc callback, run in its own goroutine when the timer fires
 }
 
 var timers []*Timer
@@ -39,6 +40,14 @@ func ResetAll() { timers = nil }
 func NewTimer(d Duration) *Timer {
 	vsched.Step()
 	t := &Timer{C: vchan.Make[Time](1), armed: true, D: d}
+	timers = append(timers, t)
+	return t
+}
+
+// AfterFunc mirrors time.AfterFunc: when the timer is fired the callback runs in a new goroutine.
+func AfterFunc(d Duration, f func()) *Timer {
+	vsched.Step()
+	t := &Timer{C: vchan.Make[Time](1), armed: true, D: d, f: f}
 	timers = append(timers, t)
 	return t
 }
@@ -78,7 +87,11 @@ func Fire(i int) bool {
 		return false
 	}
 	a[i].armed = false
-	a[i].C.Put(Time{})
+	if a[i].f != nil {
+		vsched.Go(a[i].f)
+	} else {
+		a[i].C.Put(Time{})
+	}
 	return true
 }
 
